@@ -11,7 +11,7 @@ one() {
   rm -rf $vc; mkdir -p $vc; (cd /verif && cp -r check sim profiles known_findings.json properties.jsonl replays evidence $vc/); rm -f $vc/replays/C*.json
   for p in "$@"; do
     out=$(cd $vc && VERIF_REPO=$wt timeout 900 /venv/bin/python ./check $p --tier quick --runs $runs 2>&1); rc=$?
-    echo "== $n $p rc=$rc $(echo "$out" | grep -E 'runs,' | sed 's/distinct.*violations/viol/' | tr '\n' ' ' | cut -c1-160)"
+    echo "== $n $p rc=$rc $(echo "$out" | grep -E 'runs,' | sed 's/ non-trivial, [0-9]* discarded//' | tr '\n' ' ' | cut -c1-160)"
     if [ $rc -ne 0 ]; then echo "$out" | grep -E "violated clause|^\[C[0-9]+\]   |VIOLATION|HARNESS|Error" | head -12; fi
   done
   git -C /repo worktree remove --force $wt; rm -rf $vc
